@@ -15,6 +15,8 @@ from nutree import IterMethod, SkipBranch, StopTraversal
 
 ID = "C06"
 LEVEL = "exploration"
+TECHNIQUE = 'bounded-exhaustive enumeration + Hypothesis, reference traversals computed by different algorithms'
+LEVEL_TEXT = 'exploration with an exhaustive part: all forests up to the bound x every start x every method x every skip/stop position x every signal form against reference orders; complete inside the bound only'
 RULE = (
     "case = (forest, start); forests: every ordered forest with <= N nodes (exhaustive part) and "
     "Hypothesis-drawn deeper/wider ones; start = tree or any node. Per case ALL of: 6 ordered iterator "
